@@ -144,7 +144,9 @@ def value_of(kind, text):
 
 
 # typed INFO keys of the generated header: key -> (Number, Type)
-INFO_KEYS = {"DP": ("1", "Integer"), "AF": ("A", "Float"), "DB": ("0", "Flag"), "ST": ("1", "String"), "NL": (".", "Integer")}
+# (key names where one is a prefix of another: DB/DBS, A/AF)
+INFO_KEYS = {"DP": ("1", "Integer"), "AF": ("A", "Float"), "DB": ("0", "Flag"), "ST": ("1", "String"), "NL": (".", "Integer"),
+             "DBS": ("1", "String"), "A": ("0", "Flag")}
 
 
 def parse_info(text):
